@@ -4,6 +4,7 @@ import (
 	"errors"
 	"fmt"
 	"strings"
+	"unicode"
 
 	dtpb "github.com/google/fhir/go/proto/google/fhir/proto/r4/core/datatypes_go_proto"
 	bcrpb "github.com/google/fhir/go/proto/google/fhir/proto/r4/core/resources/bundle_and_contained_resource_go_proto"
@@ -161,6 +162,12 @@ func (e *FieldExpression) Evaluate(ctx *Context, input system.Collection) (syste
 			fieldName = fieldName + "_value"
 			field = reflect.Descriptor().Fields().ByName(protoreflect.Name(fieldName))
 			if field == nil {
+				// Snake-casing does not reproduce every proto name (e.g.
+				// lethalDose50 is lethal_dose50): the element name is the JSON
+				// name of its proto field.
+				field = reflect.Descriptor().Fields().ByJSONName(e.FieldName)
+			}
+			if field == nil {
 				return nil, fmt.Errorf("%w: %s not a field on %T", ErrInvalidField, fieldName, message)
 			}
 		}
@@ -225,9 +232,10 @@ func (e *FieldExpression) isEvaluable(msg proto.Message) bool {
 		return true
 	}
 
-	// Prevent snake_case fields, since all FHIRPath fields need to be in
-	// camelCase.
-	if strcase.ToLowerCamel(e.FieldName) != e.FieldName {
+	// Prevent snake_case and UpperCamel fields, since all FHIRPath fields need
+	// to be in lowerCamel case. Names may contain acronyms (e.g. carrierHRF),
+	// so they are not compared with a re-cased rendering of themselves.
+	if strings.Contains(e.FieldName, "_") || (e.FieldName != "" && unicode.IsUpper(rune(e.FieldName[0]))) {
 		return false
 	}
 
